@@ -1,11 +1,14 @@
 import VM.Driver.Result
 import VM.Driver.SchemaFam
+import VM.Driver.HistoryFam
 open Lean VM.Driver
 
 def dispatch (j : Json) : Json :=
   match getStr j "fam" with
   | "result" => runResultCase j
   | "schema" | "schemamal" => runSchemaCase j
+  | "history" | "historypanic" => runHistoryCase j
+  | "conc" | "rexp" => Json.mkObj [("model", Json.str "theorems only: outcomes are compared with solo runs / Go regexp by the harness")]
   | f => Json.mkObj [("bad", Json.str s!"unknown family {f}")]
 
 partial def loop (hin : IO.FS.Stream) (hout : IO.FS.Stream) : IO Unit := do
